@@ -43,7 +43,8 @@ package f64
 //@ requires strided(dst, int(idst), int(n), int(incDst))
 //@ writes dst[int(idst)+k*int(incDst)] for k in 0..int(n)
 //@ reads x[int(ix)+k*int(incX)] for k in 0..int(n) ; y[int(iy)+k*int(incY)] for k in 0..int(n)
-//@ ensures disjoint(dst, x) && disjoint(dst, y) && int(incDst) != 0 ==> forall(k, 0, int(n), same(dst[int(idst)+k*int(incDst)], alpha*old(x[int(ix)+k*int(incX)]) + old(y[int(iy)+k*int(incY)])))
+// thorough tier only: three strided address families; 60-80 s with the (sound) loop-head havoc
+//@ ensures [thorough] disjoint(dst, x) && disjoint(dst, y) && int(incDst) != 0 ==> forall(k, 0, int(n), same(dst[int(idst)+k*int(incDst)], alpha*old(x[int(ix)+k*int(incX)]) + old(y[int(iy)+k*int(incY)])))
 
 // dotp: the defining sum of the dot product of the first n elements taken with
 // increments incX, incY from positions ix, iy (exact arithmetic, [real] clauses).
